@@ -9,7 +9,7 @@ mod verif_c01_step {
     // @harness id=C01 tier=quick timeout=2400 mem=12
     // @bounds W=2 H=2, 0 lines (a symbolic number of text lines first, then bar lines), each 0..=4 columns; top alignment; previous frame b in 0..=H rows, any cursor column, parked/unparked start; all bar lines fit into H rows; excludes the two recorded finding regions
     #[kani::proof]
-    #[kani::unwind(14)]
+    #[kani::unwind(7)]
     //@STUBS widthascii repeat
     fn c01_step_w2h2n0() {
         let c = step(2, 2, 0, false, 0, 1);
@@ -20,7 +20,7 @@ mod verif_c01_step {
     // @harness id=C01 tier=quick timeout=2400 mem=12
     // @bounds W=2 H=2, 1 lines (a symbolic number of text lines first, then bar lines), each 0..=4 columns; top alignment; previous frame b in 0..=H rows, any cursor column, parked/unparked start; all bar lines fit into H rows; excludes the two recorded finding regions
     #[kani::proof]
-    #[kani::unwind(14)]
+    #[kani::unwind(7)]
     //@STUBS widthascii repeat
     fn c01_step_w2h2n1() {
         let c = step(2, 2, 1, false, 0, 1);
@@ -32,7 +32,7 @@ mod verif_c01_step {
     // @harness id=C01 tier=quick timeout=2400 mem=12
     // @bounds W=2 H=3, 2 lines (a symbolic number of text lines first, then bar lines), each 0..=4 columns; top alignment; previous frame b in 0..=H rows, any cursor column, parked/unparked start; all bar lines fit into H rows; excludes the two recorded finding regions
     #[kani::proof]
-    #[kani::unwind(14)]
+    #[kani::unwind(7)]
     //@STUBS widthascii repeat
     fn c01_step_w2h3n2() {
         let c = step(2, 3, 2, false, 0, 1);
@@ -45,7 +45,7 @@ mod verif_c01_step {
     // @harness id=C01 tier=quick timeout=2400 mem=12
     // @bounds W=3 H=2, 2 lines (a symbolic number of text lines first, then bar lines), each 0..=6 columns; top alignment; previous frame b in 0..=H rows, any cursor column, parked/unparked start; all bar lines fit into H rows; excludes the two recorded finding regions
     #[kani::proof]
-    #[kani::unwind(14)]
+    #[kani::unwind(7)]
     //@STUBS widthascii repeat
     fn c01_step_w3h2n2() {
         let c = step(3, 2, 2, false, 0, 1);
@@ -58,7 +58,7 @@ mod verif_c01_step {
     // @harness id=C01 tier=quick timeout=2400 mem=12
     // @bounds W=1 H=2, 2 lines (a symbolic number of text lines first, then bar lines), each 0..=2 columns; top alignment; previous frame b in 0..=H rows, any cursor column, parked/unparked start; all bar lines fit into H rows; excludes the two recorded finding regions
     #[kani::proof]
-    #[kani::unwind(14)]
+    #[kani::unwind(7)]
     //@STUBS widthascii repeat
     fn c01_step_w1h2n2() {
         let c = step(1, 2, 2, false, 0, 1);
@@ -71,7 +71,7 @@ mod verif_c01_step {
     // @harness id=C01 tier=quick timeout=2400 mem=12
     // @bounds W=2 H=3, 1 lines (a symbolic number of text lines first, then bar lines), each 0..=4 columns; bottom alignment; previous frame b in 0..=H rows, any cursor column, parked/unparked start; all bar lines fit into H rows; excludes the two recorded finding regions
     #[kani::proof]
-    #[kani::unwind(14)]
+    #[kani::unwind(7)]
     //@STUBS widthascii repeat
     fn c01_step_w2h3n1b() {
         let c = step(2, 3, 1, true, 0, 1);
@@ -84,7 +84,7 @@ mod verif_c01_step {
     // @harness id=C01 tier=quick timeout=2400 mem=12
     // @bounds W=2 H=2, 0 lines (a symbolic number of text lines first, then bar lines), each 0..=4 columns; bottom alignment; previous frame b in 0..=H rows, any cursor column, parked/unparked start; all bar lines fit into H rows; excludes the two recorded finding regions
     #[kani::proof]
-    #[kani::unwind(14)]
+    #[kani::unwind(7)]
     //@STUBS widthascii repeat
     fn c01_step_w2h2n0b() {
         let c = step(2, 2, 0, true, 0, 1);
@@ -96,7 +96,7 @@ mod verif_c01_step {
     // @harness id=C01 tier=quick timeout=2400 mem=12
     // @bounds W=1 H=1, 1 lines (a symbolic number of text lines first, then bar lines), each 0..=2 columns; top alignment; previous frame b in 0..=H rows, any cursor column, parked/unparked start; all bar lines fit into H rows; excludes the two recorded finding regions
     #[kani::proof]
-    #[kani::unwind(14)]
+    #[kani::unwind(7)]
     //@STUBS widthascii repeat
     fn c01_step_w1h1n1() {
         let c = step(1, 1, 1, false, 0, 1);
@@ -107,7 +107,7 @@ mod verif_c01_step {
     // @harness id=C01 tier=thorough timeout=2400 mem=12
     // @bounds W=3 H=3, 3 lines (a symbolic number of text lines first, then bar lines), each 0..=6 columns; top alignment; previous frame b in 0..=H rows, any cursor column, parked/unparked start; all bar lines fit into H rows; excludes the two recorded finding regions
     #[kani::proof]
-    #[kani::unwind(14)]
+    #[kani::unwind(7)]
     //@STUBS widthascii repeat
     fn c01_step_w3h3n3() {
         let c = step(3, 3, 3, false, 0, 1);
@@ -120,7 +120,7 @@ mod verif_c01_step {
     // @harness id=C01 tier=thorough timeout=2400 mem=12
     // @bounds W=4 H=4, 3 lines (a symbolic number of text lines first, then bar lines), each 0..=8 columns; top alignment; previous frame b in 0..=H rows, any cursor column, parked/unparked start; all bar lines fit into H rows; excludes the two recorded finding regions
     #[kani::proof]
-    #[kani::unwind(14)]
+    #[kani::unwind(7)]
     //@STUBS widthascii repeat
     fn c01_step_w4h4n3() {
         let c = step(4, 4, 3, false, 0, 1);
@@ -133,7 +133,7 @@ mod verif_c01_step {
     // @harness id=C01 tier=thorough timeout=2400 mem=12
     // @bounds W=2 H=4, 3 lines (a symbolic number of text lines first, then bar lines), each 0..=4 columns; top alignment; previous frame b in 0..=H rows, any cursor column, parked/unparked start; all bar lines fit into H rows; excludes the two recorded finding regions
     #[kani::proof]
-    #[kani::unwind(14)]
+    #[kani::unwind(7)]
     //@STUBS widthascii repeat
     fn c01_step_w2h4n3() {
         let c = step(2, 4, 3, false, 0, 1);
@@ -146,7 +146,7 @@ mod verif_c01_step {
     // @harness id=C01 tier=thorough timeout=2400 mem=12
     // @bounds W=4 H=2, 2 lines (a symbolic number of text lines first, then bar lines), each 0..=8 columns; top alignment; previous frame b in 0..=H rows, any cursor column, parked/unparked start; all bar lines fit into H rows; excludes the two recorded finding regions
     #[kani::proof]
-    #[kani::unwind(14)]
+    #[kani::unwind(7)]
     //@STUBS widthascii repeat
     fn c01_step_w4h2n2() {
         let c = step(4, 2, 2, false, 0, 1);
@@ -159,7 +159,7 @@ mod verif_c01_step {
     // @harness id=C01 tier=thorough timeout=2400 mem=12
     // @bounds W=2 H=3, 2 lines (a symbolic number of text lines first, then bar lines), each 0..=4 columns; bottom alignment; previous frame b in 0..=H rows, any cursor column, parked/unparked start; all bar lines fit into H rows; excludes the two recorded finding regions
     #[kani::proof]
-    #[kani::unwind(14)]
+    #[kani::unwind(7)]
     //@STUBS widthascii repeat
     fn c01_step_w2h3n2b() {
         let c = step(2, 3, 2, true, 0, 1);
@@ -173,7 +173,7 @@ mod verif_c01_step {
     // @harness id=C01 tier=thorough timeout=2400 mem=12
     // @bounds W=3 H=3, 3 lines (a symbolic number of text lines first, then bar lines), each 0..=6 columns; bottom alignment; previous frame b in 0..=H rows, any cursor column, parked/unparked start; all bar lines fit into H rows; excludes the two recorded finding regions
     #[kani::proof]
-    #[kani::unwind(14)]
+    #[kani::unwind(7)]
     //@STUBS widthascii repeat
     fn c01_step_w3h3n3b() {
         let c = step(3, 3, 3, true, 0, 1);
@@ -187,7 +187,7 @@ mod verif_c01_step {
     // @harness id=C01 tier=thorough timeout=2400 mem=12
     // @bounds W=3 H=3, 0 lines (a symbolic number of text lines first, then bar lines), each 0..=6 columns; bottom alignment; previous frame b in 0..=H rows, any cursor column, parked/unparked start; all bar lines fit into H rows; excludes the two recorded finding regions
     #[kani::proof]
-    #[kani::unwind(14)]
+    #[kani::unwind(7)]
     //@STUBS widthascii repeat
     fn c01_step_w3h3n0b() {
         let c = step(3, 3, 0, true, 0, 1);
@@ -199,7 +199,7 @@ mod verif_c01_step {
     // @harness id=C01 tier=thorough timeout=2400 mem=12
     // @bounds W=4 H=4, 2 lines (a symbolic number of text lines first, then bar lines), each 0..=8 columns; bottom alignment; previous frame b in 0..=H rows, any cursor column, parked/unparked start; all bar lines fit into H rows; excludes the two recorded finding regions
     #[kani::proof]
-    #[kani::unwind(14)]
+    #[kani::unwind(7)]
     //@STUBS widthascii repeat
     fn c01_step_w4h4n2b() {
         let c = step(4, 4, 2, true, 0, 1);
@@ -213,7 +213,7 @@ mod verif_c01_step {
     // @harness id=C01 tier=quick timeout=2400 mem=12 expect=known:C01-zero-width-first-line-after-text-only-draw
     // @bounds W=2 H=3, 2 lines (a symbolic number of text lines first, then bar lines), each 0..=4 columns; top alignment; previous frame b in 0..=H rows, any cursor column, parked/unparked start; ONLY: parked start (after a text-only draw), first of the 2 lines has zero width
     #[kani::proof]
-    #[kani::unwind(14)]
+    #[kani::unwind(7)]
     //@STUBS widthascii repeat
     fn c01_kf1_zero_width_first_line() {
         let c = step(2, 3, 2, false, 1, 1);
@@ -223,7 +223,7 @@ mod verif_c01_step {
     // @harness id=C01 tier=quick timeout=2400 mem=12 expect=known:C03-bottom-align-shrink-with-text-lines
     // @bounds W=2 H=3, 2 lines (a symbolic number of text lines first, then bar lines), each 0..=4 columns; bottom alignment; previous frame b in 0..=H rows, any cursor column, parked/unparked start; ONLY: bottom alignment, frame shrinks, at least one text line in the same draw
     #[kani::proof]
-    #[kani::unwind(14)]
+    #[kani::unwind(7)]
     //@STUBS widthascii repeat
     fn c01_kf2_bottom_shrink_with_text() {
         let c = step(2, 3, 2, true, 2, 1);
